@@ -89,7 +89,7 @@ PROPS = {
     },
     "C01": {
         "jobs": [OBJ_CALLS, OBJ_MIXED],
-        "accept": lambda job, cls, site, msg: cls in ("obj.wrong_method", "obj.wrong_instance", "obj.call_count", "obj.result_mismatch", "obj.state_mismatch")
+        "accept": lambda job, cls, site, msg: cls in ("obj.wrong_method", "obj.wrong_instance", "obj.call_count", "obj.result_mismatch", "obj.state_mismatch", "obj.args_altered")
         or (job == "obj-calls" and (cls.startswith("crash.") or cls == "obj.panic")),
         "real": OBJ_REAL, "stub": OBJ_STUB, "assumptions": OBJ_ASSUME,
     },
@@ -113,7 +113,7 @@ PROPS = {
     "C08": {
         "jobs": [OBJ_CASTS],
         "accept": lambda job, cls, site, msg: cls.startswith("cast.") or ("!(" in site and cls.startswith("obj.")) or cls.startswith("crash.") or cls == "layout.optional_words",
-        "real": OBJ_REAL, "stub": OBJ_STUB, "assumptions": OBJ_ASSUME + ["the property asks for exhaustive enumeration of a finite matrix; this family samples, and reports the matrix cells (group x enabled set x requested set x operation x container) actually hit: 1640 exist for the corpus groups"],
+        "real": OBJ_REAL, "stub": OBJ_STUB, "assumptions": OBJ_ASSUME + ["the property asks for exhaustive enumeration of a finite matrix; this family samples, and reports the matrix cells (group x enabled set x requested set x operation x container) actually hit: 2560 exist for the corpus groups"],
     },
     "C13": {
         "jobs": [OBJ_INTRES, INTRES],
